@@ -412,6 +412,9 @@ func c13GenLayout(r *Rng) c13Layout {
 		}
 		lay.secs = append(lay.secs, c13Sec{".init", textAddr}, c13Sec{".text", textAddr}, c13Sec{".data", textAddr + 0x100000})
 	}
+	if r.P(1, 6) {
+		c13ReorderFile(r, &lay)
+	}
 	return lay
 }
 
@@ -559,6 +562,118 @@ func c13LoaderCases(c *Ctx, n int) {
 			tags = append(tags, "F23-shape")
 		}
 		c13ObjAddr(c, "loader", lay, m, true, addrs, int64(bias), tags...)
+	}
+}
+
+// c13ReorderFile moves the file content of one PT_LOAD segment (not the last of the table) behind
+// everything else in the file, keeping offset = vaddr modulo the segment alignment: the table stays
+// in ascending vaddr order, as ELF demands, but is no longer in ascending file-offset order (linker
+// scripts, post-link layout tools: writable data low in memory but stored after the text).
+func c13ReorderFile(r *Rng, lay *c13Layout) bool {
+	var loads []int
+	end := uint64(0)
+	for i, p := range lay.progs {
+		if p.Type == elf.PT_LOAD && p.Filesz > 0 {
+			loads = append(loads, i)
+			if p.Off+p.Filesz > end {
+				end = p.Off + p.Filesz
+			}
+		}
+	}
+	if len(loads) < 2 {
+		return false
+	}
+	j := loads[r.Intn(len(loads)-1)]
+	p := &lay.progs[j]
+	a := p.Align
+	if a < c13Page {
+		a = c13Page
+	}
+	old := p.Off
+	p.Off = c13AlignUp(end, a) + p.Vaddr%a
+	for i := range lay.progs { // headers that described the same file range follow (PT_GNU_RELRO)
+		if q := &lay.progs[i]; q.Type != elf.PT_LOAD && q.Off == old && q.Vaddr == p.Vaddr {
+			q.Off = p.Off
+		}
+	}
+	return true
+}
+
+// c13ReorderedLayouts: PT_LOAD entries in ascending vaddr order whose file offsets do NOT ascend.
+func c13ReorderedLayouts() []c13Layout {
+	ld := func(fl elf.ProgFlag, off, v, fsz, msz uint64) elf.ProgHeader {
+		return elf.ProgHeader{Type: elf.PT_LOAD, Flags: fl, Off: off, Vaddr: v, Paddr: v, Filesz: fsz, Memsz: msz, Align: 0x1000}
+	}
+	var out []c13Layout
+	for _, et := range []elf.Type{elf.ET_DYN, elf.ET_EXEC} {
+		v := uint64(0)
+		if et == elf.ET_EXEC {
+			v = 0x400000
+		}
+		// A: data low in memory, stored after the text in the file
+		out = append(out, c13Layout{etype: et, progs: []elf.ProgHeader{
+			ld(elf.PF_R, 0, v, 0x400, 0x400),
+			ld(elf.PF_R|elf.PF_W, 0x4000, v+0x1000, 0x300, 0x500),
+			ld(elf.PF_R|elf.PF_X, 0x1000, v+0x2000, 0x1800, 0x1800),
+			ld(elf.PF_R, 0x3000, v+0x4000, 0x200, 0x200),
+		}, secs: []c13Sec{{".text", v + 0x2040}}})
+		// B: the headers segment shares a file page with the text, the data is stored last
+		out = append(out, c13Layout{etype: et, progs: []elf.ProgHeader{
+			ld(elf.PF_R, 0, v, 0x1200, 0x1200),
+			ld(elf.PF_R|elf.PF_W, 0x5000, v+0x2000, 0x180, 0x400),
+			ld(elf.PF_R|elf.PF_X, 0x1200, v+0x3200, 0x1800, 0x1800),
+		}, secs: []c13Sec{{".text", v + 0x3240}}})
+		// C: the text itself is stored last, everything else before it
+		out = append(out, c13Layout{etype: et, progs: []elf.ProgHeader{
+			ld(elf.PF_R|elf.PF_X, 0x3000, v+0x1000, 0x2345, 0x2345),
+			ld(elf.PF_R, 0x1000, v+0x4000, 0x800, 0x800),
+			ld(elf.PF_R|elf.PF_W, 0x1800, v+0x5800, 0x200, 0x1200),
+		}})
+		// D: fully reversed file order
+		out = append(out, c13Layout{etype: et, progs: []elf.ProgHeader{
+			ld(elf.PF_R, 0x6000, v, 0x600, 0x600),
+			ld(elf.PF_R|elf.PF_X, 0x3000, v+0x1000, 0x2100, 0x2100),
+			ld(elf.PF_R|elf.PF_W, 0x1000, v+0x4000, 0x1100, 0x1300),
+		}})
+	}
+	return out
+}
+
+// c13ReorderedCases (deterministic): every segment of every reordered layout, loaded at several
+// biases, whole image and every single page of it, asked about its own first / middle / last byte.
+func c13ReorderedCases(c *Ctx) {
+	for li, lay := range c13ReorderedLayouts() {
+		biases := []uint64{0x555555554000, 0x7f3a5c200000}
+		if lay.etype == elf.ET_EXEC {
+			biases = []uint64{0}
+		}
+		for _, bias := range biases {
+			for _, p := range lay.progs {
+				lo, hi := bias+c13Down(p.Vaddr), bias+c13Up(p.Vaddr+p.Filesz)
+				np := int((hi - lo) / c13Page)
+				type piece struct{ i, j int }
+				pieces := []piece{{0, np}}
+				for k := 0; k < np && np > 1; k++ {
+					pieces = append(pieces, piece{k, k + 1})
+				}
+				for _, pc := range pieces {
+					m := &c13Map{start: lo + uint64(pc.i)*c13Page, limit: lo + uint64(pc.j)*c13Page, offset: c13Down(p.Off) + uint64(pc.i)*c13Page}
+					olo, ohi := bias+p.Vaddr, bias+p.Vaddr+p.Filesz
+					if olo < m.start {
+						olo = m.start
+					}
+					if ohi > m.limit {
+						ohi = m.limit
+					}
+					if olo >= ohi {
+						continue
+					}
+					for _, a := range []uint64{olo, olo + (ohi-olo)/2, ohi - 1} {
+						c13ObjAddr(c, "loader-reordered", lay, m, true, []uint64{a, olo}, int64(bias), fmt.Sprintf("reordered:%d", li))
+					}
+				}
+			}
+		}
 	}
 }
 
@@ -812,6 +927,7 @@ func c13NMCases(c *Ctx, n int) {
 
 func runC13(c *Ctx) {
 	c13FindingF23(c)
+	c13ReorderedCases(c)
 	c13EndToEnd(c)
 	// the streams whose cases cost most to evaluate come first, so that their shards start in the
 	// first wave of the parallel evaluation
